@@ -10,6 +10,7 @@ import Verif.Model.Types.Subtype
 import Verif.Model.Types.RulesPinned
 import Verif.Gen.SubtypeRules
 import Verif.Proofs.SubStruct
+import Verif.Proofs.SubAgree2
 namespace Verif.Properties.C08
 open Verif.Model.Types Verif.Model.Auth
 
@@ -120,7 +121,38 @@ theorem trans_covariant_partial (ctx : Verif.Proofs.SubStruct.Ctx) (a b c : Stri
   rw [Verif.Proofs.SubStruct.ctx_agree ctx a c ha hc]
   exact Verif.Proofs.SubStruct.psub_trans a b c ha hb hc hab hbc
 
+/-- The fuel of the interpreter is NOT monotone at small fuel: a `not` node that runs out of fuel answers
+    `true`, so `Any <: AnyStruct` is accepted with fuel 5 and (correctly) refused from fuel 6 on.  The
+    statements below are therefore made from the driver's bound `fuelFor a b` upwards. -/
+theorem fuel_not_monotone_witness :
+    isSub R 5 any (.prim "AnyStruct") = true ∧ isSub R 6 any (.prim "AnyStruct") = false ∧
+    isSub R (fuelFor any (.prim "AnyStruct")) any (.prim "AnyStruct") = false := by decide
+
+/-- **The interpreted rules are the structured relation**: for all well-formed types (every simple type
+    one of the 49, parameter lists only inside function types) — optionals, arrays, dictionaries,
+    references with authorizations, composites, interfaces, intersections, function types, capabilities,
+    inclusive ranges, at any nesting — the rule interpreter over the pinned rules.yaml data, at any fuel
+    from the driver's bound upwards, equals `Struct.sub` (one clause per constructor).  Per-rule unfolding
+    lemmas: `Proofs/SubUnfold*.lean`; induction on the total size: `Proofs/SubAgree2.agree`. -/
+theorem struct_agree (a b : Ty) (ha : a.wf = true) (hb : b.wf = true) (n : Nat) (hn : fuelFor a b ≤ n) :
+    isSub R n a b = Struct.sub a b :=
+  Verif.Proofs.SubUnfold.agree _ a b (Nat.le_refl _) ha hb n hn
+
+/-- Fuel stability: from the driver's bound upwards the answer does not depend on the fuel (so more fuel
+    never changes a verdict, in either direction).  The unrestricted monotonicity
+    `isSub R n a b = true → isSub R (n+k) a b = true` for *every* n is false (`fuel_not_monotone_witness`). -/
+theorem fuel_stable (a b : Ty) (ha : a.wf = true) (hb : b.wf = true) (n : Nat) (hn : fuelFor a b ≤ n) :
+    isSub R n a b = subtypeWith R a b := by
+  rw [subtypeWith, struct_agree a b ha hb n hn, struct_agree a b ha hb _ (Nat.le_refl _)]
+
+/-- Fuel monotonicity above the bound, both directions. -/
+theorem fuel_monotone_partial (a b : Ty) (ha : a.wf = true) (hb : b.wf = true) (n k : Nat) (hn : fuelFor a b ≤ n) :
+    isSub R (n + k) a b = isSub R n a b := by
+  rw [fuel_stable a b ha hb n hn, fuel_stable a b ha hb (n + k) (by omega)]
+
 /-! Non-vacuity / teeth -/
+example : (Ty.fn true (.consT (.ref unauthorized (.prim "Integer")) .nilT) (.opt (.dict (.prim "String") (.prim "Int8")))).wf = true := by decide
+example : (Ty.prim "Storable").wf = false ∧ (Ty.consT (.prim "Int") .nilT).wf = false := by decide
 example : isSub R 120 (.prim "Int8") (.prim "SignedInteger") = true ∧ isSub R 120 (.prim "SignedInteger") (.prim "Number") = true := by decide
 example : "Int8" ∈ Struct.primNames ∧ "Never" ∈ Struct.primNames := by decide
 example : (Verif.Proofs.SubStruct.Ctx.opt (.varArr .hole)).fill (.prim "Int8") = .opt (.varArr (.prim "Int8")) := rfl
